@@ -103,6 +103,7 @@ type NamedVar struct {
 	Kind string // int64, byte, bool, bytes, string, time, choice, ...
 	Term *Term
 	N    int
+	Bytes []*Term
 }
 
 type Observation struct {
